@@ -22,6 +22,9 @@
 
 extern int g_no_error;      /* stubs/base.c */
 
+/* every combination of const, restrict, volatile (_Atomic is rejected by decl.c:typequal) */
+#define QUALMAX (QUALCONST|QUALRESTRICT|QUALVOLATILE)
+
 enum {
 	BS_ENA = AT_N, BS_ENB, BS_VOID, BS_S1, BS_S2, BS_S3INC, BS_FN, BS_PI, BS_ARR3, BS_ARRINC, BS_U1, BS_N,
 	TS_PTR = BS_N, TS_NULLPTR, TS_N
